@@ -84,6 +84,11 @@ def gen(rng, cname, n_times=None):
     # make sure that cell spreads are not tiny
     sim[0] *= 1.2
     sim[-1] *= 0.8
+    # the unit of the measurements is arbitrary (mol/L instead of nmol/L):
+    # the documented estimators are scale equivariant
+    unit = 10.0 ** float(rng.choice([0, 0, 0, 0, -12, -9, -6, -3, 3, 6]))
+    obs = obs * unit
+    sim = sim * unit
     has_nan = bool(rng.random() < 0.6) and n_ids > 1
     if has_nan:
         mask = rng.random(size=obs.shape) < 0.35
